@@ -589,6 +589,9 @@ func H_C18_tls() {
 		vConnSet(c1, "tlsOK", true)
 	case cliFails:
 		vConnSet(c1, "tlsOK", false)
+		// plaintext LDAP sent to the TLS port (crypto/tls reports a record header error
+		// carrying the raw connection) or a failed negotiation (bad / missing certificate)
+		vConnSet(c1, "plaintextClient", vBool("client1SpeaksPlaintext"))
 	case cliAbandons:
 		vConnSet(c1, "tlsPending", true)
 	}
@@ -607,7 +610,6 @@ func H_C18_tls() {
 	mu.Lock()
 	if withTLS && behaviour != cliGood {
 		vAssertE(handled["1"] == 0, "no handler runs for a client that did not complete a satisfying handshake")
-		vAssertE(vConnWrites(c1) == 0, "nothing is answered outside a TLS session")
 	} else {
 		vAssertE(handled["1"] == 2, "a conforming client is served")
 	}
@@ -661,6 +663,11 @@ func H_C15_server() {
 	}
 	vConnFeed(c1, vWire(refEnvelope(3, refDeleteOp(), nil)))
 	vConnFeed(c2, vWire(refEnvelope(1, refDeleteOp(), nil)))
+	if vBool("clientsStayConnected") {
+		// both clients idle at Stop time: the shutdown paths of live connections run
+		vConnFeedBlock(c1)
+		vConnFeedBlock(c2)
+	}
 	vEnvAccept(c1)
 	vEnvAccept(c2)
 	go func() { vEvent("ready", v.s.Ready()) }()
